@@ -14,7 +14,7 @@ if args and args[0] == "--props":
 man = json.load(open(os.path.join(HERE, "..", "MANIFEST.json")))
 claimed = [c["property_id"] for c in man["checks"]]
 allp = sorted(set(claimed) | {p[:-3].upper() for p in os.listdir(os.path.join(HERE, "..", "lib")) if re.fullmatch(r"c\d\d\.py", p)})
-sd = os.path.join(HERE, "..", "seeded")
+sd = os.path.join(HERE, "..", os.environ.get("SEED_DIR", "seeded"))
 names = sorted(d for d in os.listdir(sd) if os.path.isdir(os.path.join(sd, d))) if args == ["all"] else args
 resf = os.environ.get("SEED_RESULTS") or os.path.join(sd, "RESULTS.json")
 results = json.load(open(resf)) if os.path.exists(resf) else {}
